@@ -28,7 +28,10 @@ Definition epilogue (rec : nat -> tree) (src : nat) (s : sym) (t : trans) (qc : 
   if t_fall t then
     if goes_on then rec qc else Leaf (source_return src s)
   else if immediate_done d t then Leaf (LRet RDone qc adv)
-  else if is_end s then Leaf (LRet (if accepting d src then RDone else RFail) qc false)
+  else if is_end s then
+    (* end(): an `end` pattern matched here; DONE when the program is complete behind it (the transition's own target is an
+       accepting state) or was complete already, else FAIL *)
+    Leaf (LRet (if (match t_tgt t with Some q => accepting d q | None => false end) || accepting d src then RDone else RFail) qc false)
   else if goes_on then Leaf (LConsume qc) else Leaf (source_return src s).
 
 Fixpoint run_acts (rec : nat -> tree) (src : nat) (s : sym) (t : trans) (a : atree) (qc : nat) (adv : bool) : tree :=
